@@ -201,6 +201,22 @@ def split_differential(ctx, binp, n):
         limit = rng.choice([1, 90, 200, 260, 300, 400, 520, 700, 1000, 5000, rng.randrange(80, 1500)])
         steps.append(dict(impl=dict(op="refsplit", descs=descs, secs=float(limit)), descs=descs, limit=limit))
     out = run_api(ctx, binp, [dict(id=1, conf=mkconf(), steps=steps)], "split")[1]["steps"]
+    # second batch: the same descriptor lists with limits at, just below and just above the size of a page of exactly one
+    # descriptor and of exactly two neighbours (sizes as Go encodes them, learned from the first batch)
+    steps2 = []
+    for st, o in zip(steps, out):
+        lens = [int(x) for x in (o.get("names") or [])]
+        if len(lens) < 2 or rng.random() < 0.4:
+            continue
+        j = rng.randrange(len(lens))
+        cands = [o["n"] + lens[j] + dlt for dlt in (-1, 0, 1)]
+        if j + 1 < len(lens):
+            cands += [o["n"] + lens[j] + lens[j + 1] + 1 + dlt for dlt in (-1, 0, 1)]
+        for limit in rng.sample(cands, min(len(cands), 3)):
+            steps2.append(dict(impl=dict(op="refsplit", descs=st["descs"], secs=float(limit)), descs=st["descs"], limit=limit))
+    if steps2:
+        out += run_api(ctx, binp, [dict(id=1, conf=mkconf(), steps=steps2)], "split2")[1]["steps"]
+        steps += steps2
     lines = [sl("split", str(st["limit"]), str(o["n"]), sl(*[x for x in (o.get("names") or [])])) for st, o in zip(steps, out)]
     binm = ensure_model()
     p = subprocess.run([binm, "probe"], input="\n".join(lines) + "\n", stdout=subprocess.PIPE, stderr=subprocess.PIPE, text=True, timeout=600)
